@@ -272,7 +272,7 @@ class HDict(dict):
 
 
 class State:
-    __slots__ = ("frames", "store", "pc", "events", "visits", "steps", "tagfacts", "status", "ret", "ids")
+    __slots__ = ("frames", "store", "pc", "events", "visits", "steps", "tagfacts", "status", "ret", "ids", "visit_mark", "bonus")
 
     def __init__(self):
         self.frames = []
@@ -280,6 +280,8 @@ class State:
         self.pc = []
         self.events = []
         self.visits = {}
+        self.visit_mark = {}
+        self.bonus = 0
         self.steps = 0
         self.tagfacts = {}
         self.status = None
@@ -293,6 +295,8 @@ class State:
         s.pc = list(self.pc)
         s.events = list(self.events)
         s.visits = dict(self.visits)
+        s.visit_mark = dict(self.visit_mark)
+        s.bonus = self.bonus
         s.steps = self.steps
         s.tagfacts = dict(self.tagfacts)
         s.ids = self.ids
@@ -330,6 +334,7 @@ class Engine:
         self.max_steps = max_steps
         self.max_paths = max_paths
         self.discr_events = None
+        self.free_constant_loops = True
         self.unfold = None          # opt-in: (fn, event, state) -> may a function that is already being analysed be entered once more?
         self.max_depth = max_depth
         self.models = dict(MODELS)
@@ -723,9 +728,15 @@ class Engine:
             fn = fr["fn"]
             bbi = fr["bb"]
             vk = (fr["fid"], bbi)
-            n = st.visits.get(vk, 0) + 1
+            # a revisit counts against the loop bound only if a symbolic decision (or an opaque call) was made since the last visit:
+            # iterations decided by constants alone (a loop over a fixed-size array, `for i in 0..4`) always unroll completely
+            if self.free_constant_loops and st.visit_mark.get(vk) == len(st.pc):
+                n = st.visits.get(vk, 0)
+            else:
+                n = st.visits.get(vk, 0) + 1
             st.visits[vk] = n
-            if n > self.max_visits:
+            st.visit_mark[vk] = len(st.pc)
+            if n > self.max_visits + (st.bonus if self.free_constant_loops else 0):
                 return self._finish(st, "cut", done)
             bb = fn.blocks[bbi]
             for s in bb["stmts"]:
@@ -1376,12 +1387,14 @@ def _m_range_next(eng, st, callee, args, ev):
                 eng.write(st, r[1], v[:5] + ((C(s[1] + 1, s[2]), e, FALSE),) + v[6:])
             else:
                 eng.write(st, r[1], v[:5] + ((s, e, TRUE),) + v[6:])
+            st.bonus += 1        # an iteration whose existence is decided by constants does not use up the loop bound
             return ("agg", "adt", "core::option::Option", "Some", ("0",), (s,), 1)
     if v[0] == "agg" and v[1] == "adt" and v[2] == "core::array::iter::IntoIter":
         arr, pos = v[5][0], v[5][1]
         if is_c(pos) and arr[0] == "agg":
             if pos[1] < len(arr[5]):
                 eng.write(st, r[1], v[:5] + ((arr, C(pos[1] + 1, "usize")),) + v[6:])
+                st.bonus += 1
                 return ("agg", "adt", "core::option::Option", "Some", ("0",), (arr[5][pos[1]],), 1)
             return ("agg", "adt", "core::option::Option", "None", (), (), 0)
     if v[0] == "agg" and v[1] == "adt" and v[2] and v[2].endswith("ops::range::Range"):
@@ -1389,6 +1402,7 @@ def _m_range_next(eng, st, callee, args, ev):
         if is_c(s) and is_c(e):
             if s[1] < e[1]:
                 eng.write(st, r[1], v[:5] + ((C(s[1] + 1, s[2]), e),) + v[6:])
+                st.bonus += 1
                 return ("agg", "adt", "core::option::Option", "Some", ("0",), (s,), 1)
             return ("agg", "adt", "core::option::Option", "None", (), (), 0)
     return NotImplemented
